@@ -117,6 +117,19 @@ Theorem C16_step_refines_names :
     exists w' out, mstep w o = Ok (w', out) /\ winv w' /\ sstep (absw w) o = (absw w', pout out).
 Proof. exact mstep_refines. Qed.
 
+(* the name may lie INSIDE the identifier's own current content (prefix stripping,
+   truncation in place: mpt_identifier_set(id, data(id) + off, len), operation
+   OSetSelf): from every invariant world, for every offset and length request,
+   whether the content is inline or a separate block and whether the new name
+   stays allocated or becomes inline, the step does not fault, keeps the heap
+   invariant and stores exactly that part of the previous bytes (specification:
+   sset on [skipn off] of the previous value); no side condition on the operation. *)
+Theorem C16_set_from_own_content :
+  forall w i off len, winv w ->
+    exists w' out, mstep w (OSetSelf i off len) = Ok (w', out) /\ winv w' /\
+                   sstep (absw w) (OSetSelf i off len) = (absw w', pout out).
+Proof. exact set_self_refines. Qed.
+
 (* heap discipline over ALL histories: the run never faults (a bad free, a read
    through a wild pointer or outside the storage would be a fault); the
    invariant holds in the state reached; after the owner's cleanup
@@ -338,6 +351,7 @@ Print Assumptions C16_compare_cstring_iff_equal.
 Print Assumptions C16_inequal_iff_equal.
 Print Assumptions C16_history_refines_names.
 Print Assumptions C16_step_refines_names.
+Print Assumptions C16_set_from_own_content.
 Print Assumptions C16_heap_discipline.
 Print Assumptions C16_new_capacity.
 Print Assumptions C16_new_limit.
